@@ -1,9 +1,21 @@
-PENDING.update({k: "check not built yet at this commit (planned, see DESIGN.md section 5)" for k in ["C03","C04","C05","C07","C10","C11","C12","C13","C15","C18","C20"]})
+PENDING.update({k: "check not built yet at this commit (planned, see DESIGN.md section 5)" for k in ["C03","C07","C10","C11","C12","C15","C18","C20"]})
 check("C01", "exploration",
   "Seeded search: every run executes one (generated variant, operation, variables, resolver-outcome plan, release order) of servers generated at check time from /repo's templates, with each resolver/directive call parked and released by the scheduler, and compares data (key order kept) and the error multiset with an independent reference executor. Sampling, not proof; right level because the property is a refinement claim over an unbounded input space.",
   "Probe schemas instead of random schemas; reference executor + plan are the trusted model (parameters P1/P2 documented in DESIGN 3.5); gqlgen-authored messages matched by path only.",
   "deterministic simulation (seeded scheduler over parked resolver calls) + reference-model refinement", "5.1")
+check("C04", "fault_enumeration",
+  "For each sampled (variant, operation, base plan) EVERY single fault point found by a fault-free pass (resolver call, directive call, argument unmarshaler, custom-scalar marshaler) is injected as error and as panic, then seeded multi-fault sets, on one long-lived server; each execution must equal the reference under the same overlay, RecoverFunc count must equal injected panics, and an unrecovered panic kills the worker and is attributed to the run.",
+  "Reference executor is the model of 'only that position fails'; subscription-event context lives in the websocket scenario; status code of a serialisation panic not asserted.",
+  "deterministic simulation: single-fault sweep + seeded multi-fault sets against a reference model", "5.4")
+check("C05", "fault_enumeration",
+  "For each sampled (variant incl. worker_limit 0/1/2/8, operation, plan) the request context is cancelled at EVERY quiescent point of the execution; oracle is quiescence-based: nothing parked and request unfinished = hang (with the blocked stack), and after end+cancel no goroutine created by gqlgen may remain in the bubble (synctest goroutine dump).",
+  "synctest's durable-blocking detection is trusted; resolvers return promptly once released (premise); streaming transports' end-of-life is checked by C11/C12 scenarios.",
+  "deterministic simulation: cancellation-point sweep with quiescence/leak oracle", "5.5")
 check("C06", "exploration",
   "Each (variant, operation, plan) is executed under six schedules (canonical, reversed, deepest-first, seeded one-at-a-time, seeded burst) in a -race binary; results must be identical and equal to the reference; the mutation-root serial invariant is checked at every quiescent point.",
   "Interleavings at the granularity of user callbacks; finer interference only through the Go race detector under burst releases.",
   "deterministic simulation: schedule search with race detector, cross-schedule equality + serial-root invariant", "5.6")
+check("C13", "exploration",
+  "Operations with @defer on seeded subsets of fragments run with group completion order chosen by the scheduler; the payload sequence is checked for discipline (hasNext, termination, once-only), arrival-order applicability of paths, and merged content against the reference executor with propagation stopping at failed groups. Two genuine defects are recorded as known findings.",
+  "Group membership is read from the payloads, not predicted; comparison of merged data ignores key order.",
+  "deterministic simulation: group-completion-order search + defer-aware reference model", "5.13")
